@@ -246,14 +246,22 @@ def main():
     rep.extra["deviation_on_counterexamples"] = devs
     if len(behs) > (40000 if quick else 400000):
         behs = rng.sample(behs, 40000 if quick else 400000)
-    optr = oprec.run_op_cases(behs)
-    ovs, ogen, odist = core.validate("C05_op", optr, module="TraceOp", batch=3000)
-    rep.add_traces(optr, ovs, ogen, odist, nontrivial_key=lambda c: json.dumps([c["kind"], c["a"], c["b"], c["hist"]]))
-    rep.extra["operator_behaviours_replayed"] = len(optr)
-    rep.extra["operator_model_exact"] = sum(1 for v in ovs if v.get("exact"))
-    if rep.extra["operator_model_exact"] != len(optr):
-        print("NOTE: model drift - %d of %d replayed operator behaviours differ from DenseOn!TimedUpd call by call (returned batch or "
-              "memory); the verdict is taken from the contract clauses only" % (len(optr) - rep.extra["operator_model_exact"], len(optr)))
+    # the operator classes are internals: the replay applies only while they have the interface it assumes (oprec.applicable)
+    op_ok, op_why = oprec.applicable()
+    rep.extra["operator_level_replay_applicable"] = op_ok
+    if not op_ok:
+        print("NOTE: the operator-level replay is skipped - the classes OnceTimedOperation / HistoricallyTimedOperation no longer have the "
+              "interface it assumes (%s); whole monitors are replayed as before" % op_why)
+    else:
+        optr = oprec.run_op_cases(behs)
+        ovs, ogen, odist = core.validate("C05_op", optr, module="TraceOp", batch=3000)
+        rep.add_traces(optr, ovs, ogen, odist, nontrivial_key=lambda c: json.dumps([c["kind"], c["a"], c["b"], c["hist"]]))
+        rep.extra["operator_behaviours_replayed"] = len(optr)
+        rep.extra["operator_model_exact"] = sum(1 for v in ovs if v.get("exact"))
+        rep.extra["operator_batches_strictly_increasing"] = sum(1 for v in ovs if v.get("strict"))
+        if rep.extra["operator_model_exact"] != len(optr):
+            print("NOTE: model drift - %d of %d replayed operator behaviours differ from DenseOn!TimedUpd call by call (returned batch or "
+                  "memory); the verdict is taken from the contract clauses only" % (len(optr) - rep.extra["operator_model_exact"], len(optr)))
     cases = gen_cases(rng, 1500 if quick else 15000, quick)
     traces = runner.run_cases(cases)
     vs_, gen, dist = core.validate("C05", traces, module="TraceCt")
